@@ -61,8 +61,7 @@ Section Nf9.
   (* the record loop of decodeSet.  Every error ends the loop and is returned after the skip; a
      plain error (short read) is fatal for the message, a nonfatalError is collected. *)
   Fixpoint set_loop9 (fuel : nat) (sid L start : Z) (tr : template) (addr : bytes)
-           (c : C) (r : reader) (ds : list record) : outcome (C * sres * bool) :=
-    (* third component: a plain (fatal) error is pending while the skip still has to run *)
+           (c : C) (r : reader) (ds : list record) : outcome (C * sres) :=
     if (4 <? L - (count r - start)) && (4 <? rlen r) then
       match fuel with
       | O => Hang
@@ -70,23 +69,23 @@ Section Nf9.
         if (sid =? 0) || (sid =? 1) then
           t <- catch (if sid =? 0 then read_template9 r else read_opts_template9 r) ;;
           match t with
-          | None => Ok (c, SFatal, true)
+          | None => Ok (c, SFatal)
           | Some (tr', r') =>
             c' <- c_insert ops c (t_id tr') addr tr' ;;
             set_loop9 k sid L start tr addr c' r' ds
           end
-        else if (2 <=? sid) && (sid <=? 255) then Ok (c, SCont r ds false, false)   (* reserved *)
+        else if (2 <=? sid) && (sid <=? 255) then Ok (c, SCont r ds false)   (* reserved *)
         else
           d <- catch (decode_data9 tr r) ;;
           match d with
-          | None => Ok (c, SFatal, true)
-          | Some (None, r') => Ok (c, SCont r' ds true, false)
+          | None => Ok (c, SFatal)
+          | Some (None, r') => Ok (c, SCont r' ds true)
           | Some (Some fs, r') =>
-            if count r' =? count r then Ok (c, SCont r' ds true, false)   (* zero-octet record *)
+            if count r' =? count r then Ok (c, SCont r' ds true)   (* zero-octet record *)
             else set_loop9 k sid L start tr addr c r' (ds ++ [fs])
           end
       end
-    else Ok (c, SCont r ds false, false).
+    else Ok (c, SCont r ds false).
 
   Definition decode_set9 (addr : bytes) (c : C) (r : reader) (ds : list record) : outcome (C * sres) :=
     let start := count r in
@@ -98,21 +97,20 @@ Section Nf9.
       else
         lk <- (if 255 <? sid then c_retrieve ops c sid addr else Ok (Some empty_template)) ;;
         body <- match lk with
-                | None => Ok (c, SCont r1 ds true, false)
+                | None => Ok (c, SCont r1 ds true)
                 | Some tr => set_loop9 (fuel_of r1) sid L start tr addr c r1 ds
                 end ;;
-        let '(c2, res, _) := body in
-        match res with
-        | SFatal => Ok (c2, SFatal)     (* the skip may still run in Go, but the message is dropped either way *)
+        match snd body with
+        | SFatal => Ok body     (* the skip may still run in Go, but the message is dropped either way *)
         | SCont r2 ds2 nf =>
           let leftover := L - (count r2 - start) in
           if 0 <? leftover then
             s <- catch (read leftover r2) ;;
             match s with
-            | None => Ok (c2, SFatal)
-            | Some (_, r3) => Ok (c2, SCont r3 ds2 nf)
+            | None => Ok (fst body, SFatal)
+            | Some (_, r3) => Ok (fst body, SCont r3 ds2 nf)
             end
-          else Ok (c2, SCont r2 ds2 nf)
+          else Ok body
         end
     end.
 
